@@ -423,8 +423,15 @@ func c09RunRtpfb(t *testing.T, ops []string, o *Out) {
 					P("%s", showAck(a))
 				}
 			}
-		case "send": // send ssrc= seq= b=<stream bound with TWCC ext 0|1> tw=<n|-> pl=<payload len> t=
-			k := c09WKey{uint32(atoi(m["ssrc"])), m["b"] == "1"}
+		case "send": // send ssrc= seq= b=<stream bound with TWCC ext 0|1> tw=<n|-> pl=<payload len> t= [via=<ssrc of the stream>]
+			// via=<ssrc>: the packet, whose header says ssrc=, is written through the writer of the stream bound as
+			// StreamInfo.SSRC = via (a retransmission, a repair packet or a simulcast layer sent through the media stream's
+			// writer chain); without it the stream's own SSRC.  The model keys by what the header says.
+			hdrSSRC := uint32(atoi(m["ssrc"]))
+			k := c09WKey{hdrSSRC, m["b"] == "1"}
+			if v, has := m["via"]; has {
+				k.ssrc = uint32(atoi(v))
+			}
 			w, ok := pe.writers[k]
 			if !ok {
 				info := &interceptor.StreamInfo{SSRC: k.ssrc}
@@ -441,7 +448,7 @@ func c09RunRtpfb(t *testing.T, ops []string, o *Out) {
 				}
 				pe.writers[k] = w
 			}
-			h := rtp.Header{Version: 2, SSRC: k.ssrc, SequenceNumber: uint16(atoi(m["seq"]))}
+			h := rtp.Header{Version: 2, SSRC: hdrSSRC, SequenceNumber: uint16(atoi(m["seq"]))}
 			if m["tw"] != "-" {
 				b, _ := (&rtp.TransportCCExtension{TransportSequence: uint16(atoi(m["tw"]))}).Marshal()
 				_ = h.SetExtension(uint8(c09ExtID(k.ssrc)), b)
@@ -1133,10 +1140,10 @@ func c09GenAdapter(r *Rng, tier string, idx int) Case {
 }
 
 var c09RtpfbClasses = []string{"conv-twcc", "conv-ccfb", "twcc-recorder", "ccfb-recorder", "twcc-hand", "ccfb-hand", "history", "inflight", "idle-reads",
-	"ccfb-skew", "ccfb-collide", "twin", "twin"}
+	"ccfb-skew", "ccfb-collide", "twin", "twin", "via"}
 
 // the classes a twin case is made of (everything that goes through an interceptor's history)
-var c09TwinBases = []string{"twcc-recorder", "ccfb-recorder", "twcc-hand", "ccfb-hand", "history", "idle-reads", "ccfb-skew", "inflight", "ccfb-collide"}
+var c09TwinBases = []string{"twcc-recorder", "ccfb-recorder", "twcc-hand", "ccfb-hand", "history", "idle-reads", "ccfb-skew", "inflight", "ccfb-collide", "via"}
 
 func c09GenRtpfb(r *Rng, tier string, idx int) Case {
 	cl := c09RtpfbClasses[idx%len(c09RtpfbClasses)]
@@ -1352,6 +1359,91 @@ func c09GenRtpfbClass(r *Rng, cl string) []string {
 				}
 				if r.Chance(1, 3) {
 					ops = append(ops, "q ccfb "+c09HandCCFB(r, ssrcs, begin, c09At(ms), false))
+				}
+				ops = append(ops, "fb now="+c09ZS(c09At(ms)))
+				ms += int64(r.Range(1, 30))
+			}
+			ops = append(ops, "hsizes")
+		}
+	case "via":
+		// "Each acknowledgement is attributed to the packet that was really sent": the packet is named by the SSRC and
+		// sequence number in ITS header (RFC 8888 reports name exactly that pair) or by its transport-wide number —
+		// whichever stream's writer it went through.  Retransmissions (RTX SSRC), repair packets (FEC SSRC) and simulcast
+		// layers are written through the media stream's writer chain; all count from the same sequence numbers here, so a
+		// packet filed under the stream's SSRC instead of its own takes the place of a media packet.  The media stream
+		// negotiated the transport-wide extension (b=1) or not (b=0); on a b=1 stream each packet carries the extension
+		// or lacks it (the extension is added further down the chain, or not at all: the history falls back to the
+		// (SSRC, sequence number) key), so RFC 8888 and TWCC feedback both apply.
+		pool := c09SSRCPool(r, r.Range(2, 4))
+		media, others := pool[0], pool[1:]
+		bound := r.Chance(3, 4)                            // the media stream negotiated the extension
+		extMode := r.Pick(0, 0, 1, 2)                      // 0: no packet carries it, 1: every packet, 2: drawn per packet
+		start := r.Pick(0, 7, 65530, 65535, r.Intn(65536)) // every SSRC counts from here
+		tw := r.Pick(0, 65500, r.Intn(65536))
+		var second uint32 // a second bound stream (without the extension) that some foreign packets go through instead
+		if r.Chance(1, 3) {
+			second = others[len(others)-1]
+		}
+		all := append([]uint32{media}, others...)
+		i := 0
+		for rounds := r.Range(1, 3); rounds > 0; rounds-- {
+			first, firstTw := i, tw
+			for n := r.Pick(r.Range(1, 6), r.Range(5, 30), r.Range(5, 30)); n > 0; n-- {
+				order := append([]uint32{}, all...)
+				for k := len(order) - 1; k > 0; k-- {
+					j := r.Intn(k + 1)
+					order[k], order[j] = order[j], order[k]
+				}
+				for _, s := range order {
+					if s != media && r.Chance(1, 3) {
+						continue
+					}
+					ms += int64(r.Range(1, 9))
+					via, b := media, bound
+					if second != 0 && s != media && r.Bool() {
+						via, b = second, false
+					}
+					twn := -1
+					if extMode == 1 || (extMode == 2 && r.Bool()) {
+						twn = tw
+						tw++
+					}
+					op := sendOp(s, start+i, b, twn, r.Range(1, 1200))
+					if via != s {
+						op += fmt.Sprintf(" via=%d", via)
+					}
+					ops = append(ops, op)
+				}
+				i++
+			}
+			ms += 50
+			for k := r.Range(1, 2); k > 0; k-- {
+				lo := first + r.Range(-2, max(0, i-first-1))
+				n := r.Range(1, min(i-lo+1, 40))
+				switch r.Intn(3) {
+				case 0: // one report naming every SSRC
+					ops = append(ops, "q ccfb "+c09FullCCFB(r, all, start+lo, n, c09At(ms), false))
+				case 1: // one report per SSRC, reads in between
+					for _, s := range all {
+						ops = append(ops, "q ccfb "+c09FullCCFB(r, []uint32{s}, start+lo, n, c09At(ms), false))
+						if r.Chance(1, 3) {
+							ops = append(ops, "fb now="+c09ZS(c09At(ms)))
+						}
+					}
+				default: // only the foreign SSRCs, then only the media SSRC
+					ops = append(ops, "q ccfb "+c09FullCCFB(r, others, start+lo, n, c09At(ms), false))
+					if r.Bool() {
+						ops = append(ops, "fb now="+c09ZS(c09At(ms)))
+					}
+					ops = append(ops, "q ccfb "+c09FullCCFB(r, []uint32{media}, start+lo, n, c09At(ms), false))
+				}
+				if tw != firstTw && r.Chance(2, 3) {
+					cnt := r.Range(1, min(tw-firstTw, 40))
+					ds := make([]int, cnt)
+					for j := range ds {
+						ds[j] = r.Range(0, 255) * 250
+					}
+					ops = append(ops, fmt.Sprintf("q twcc base=%d cnt=%d ref=%d chunks=R1x%d deltas=%s", firstTw&0xFFFF, cnt, r.Intn(1<<24), cnt, joinInts(ds)))
 				}
 				ops = append(ops, "fb now="+c09ZS(c09At(ms)))
 				ms += int64(r.Range(1, 30))
